@@ -3,15 +3,20 @@ import logging
 
 from canopen.sdo import SdoClient
 
-from props import c01, c04, c07_block
+from props import c01, c02, c04, c07_block, c07_lib
 from props.c01 import RefServer, Bus, make_od, parse_held, parse_xfer, err_name, show_frames, dl_token
 
 logging.disable(logging.CRITICAL)
 
 ID = "C07"
-PROOF_MODULES = ["CanopenProofs.C07", "CanopenProofs.C07Block"]
+PROOF_MODULES = ["CanopenProofs.C07", "CanopenProofs.C07Block", "CanopenProofs.C07Lib"]
 GENERATED = ["Datatypes", "SdoConst", "SdoBlock"]
 THEOREMS = [
+    "Canopen.C07.Lib.lib_server_wf_any_requests",
+    "Canopen.C07.Lib.lib_server_wf_under_disturbance",
+    "Canopen.C07.Lib.distPeer_lib_forwards",
+    "Canopen.C07.Lib.download_never_silently_wrong_lib",
+    "Canopen.C07.Lib.next_transfer_clean_lib",
     "Canopen.C07.timeout_aborts",
     "Canopen.C07.abort_raises",
     "Canopen.C07.downloadWith_ok",
@@ -39,7 +44,7 @@ THEOREMS = [
     "Canopen.C07.BU.end_abort_raises",
     "Canopen.C07.BU.between_idle",
 ]
-FINGERPRINT = c01.FINGERPRINT + [
+FINGERPRINT = c01.FINGERPRINT + c02.FINGERPRINT + [
     "canopen.sdo.client:BlockDownloadStream",
     "canopen.sdo.client:BlockUploadStream",
 ]
@@ -60,7 +65,10 @@ ASSUMPTIONS = [
     "block ops: during a transfer the server's own time-out never fires before the client's; between two "
     "transfers it does (a block transfer left open is aborted by the server with 0x05040000)",
 ]
-RULE = ("op bdist: a block download / upload whose `at`-th server response is lost / late / replaced by an abort frame / "
+RULE = ("op distlib: the library client against the library's own LocalNode server, one response disturbed (every "
+        "step of expedited / segmented downloads and uploads, all kinds), followed by two or three undisturbed "
+        "transfers in both directions on the same client and server; the node's data store is read after each.  "
+        "op bdist: a block download / upload whose `at`-th server response is lost / late / replaced by an abort frame / "
         "given a wrong command specifier / wrong multiplexer (initiate) / duplicated (inline, deferred) / preceded by "
         "a stale frame, or stale frames queued before the first request; every response index of transfers of 1, 7, "
         "8, 30, 32, 50, 64 and 909 bytes, CRC on and off, changing block sizes; followed by two undisturbed "
@@ -145,6 +153,8 @@ def run(held, style, at, kind, xfers):
 def run_impl(op):
     if op.startswith("bdist "):
         return c07_block.run_impl(op)
+    if op.startswith("distlib "):
+        return c07_lib.run_impl(op)
     a = op.split(" ")
     held = parse_held(a[1])
     style = (a[2] == "1", a[3] == "1", a[4] == "1", c04.unnl(a[5]))
@@ -158,6 +168,8 @@ def run_impl(op):
 def oracle(op, out):
     if op.startswith("bdist "):
         return c07_block.oracle(op, out)
+    if op.startswith("distlib "):
+        return c07_lib.oracle(op, out)
     a = op.split(" ")
     if out.startswith("HARNESS"):
         return None
@@ -218,6 +230,8 @@ def oracle(op, out):
 def signature(op, what):
     if op.startswith("bdist "):
         return c07_block.signature(op, what)
+    if op.startswith("distlib "):
+        return c07_lib.signature(op, what)
     a = op.split(" ")
     return f"{a[7].split(':')[0]}:{what.split(' ')[0]}:{what.split(' ')[1] if ' ' in what else ''}"
 
@@ -225,6 +239,8 @@ def signature(op, what):
 def nontrivial(op, out):
     if op.startswith("bdist "):
         return c07_block.nontrivial(op, out)
+    if op.startswith("distlib "):
+        return c07_lib.nontrivial(op, out)
     rs = out.split(" | ")[0].split(";")
     return len(rs) == 2 and rs[1].startswith("ok")
 
@@ -232,6 +248,8 @@ def nontrivial(op, out):
 def classify(op, out):
     if op.startswith("bdist "):
         return c07_block.classify(op, out)
+    if op.startswith("distlib "):
+        return c07_lib.classify(op, out)
     a = op.split(" ")
     rs = out.split(" | ")[0].split(";")
     return f"{a[7].split(':')[0]}:{a[8][0]}:{rs[0].split(' ')[0] + (' ' + rs[0].split(' ')[1] if rs[0].startswith('err') else '')}"
@@ -249,6 +267,7 @@ def count_requests(held, style, xfer):
 
 def gen_ops(tier, rng):
     yield from gen_seg_ops(tier, rng)
+    yield from c07_lib.gen_ops(tier, rng)
     yield from c07_block.gen_ops(tier, rng)
 
 
@@ -311,7 +330,10 @@ CORPUS = [
     "bdist up 8192 3 h0102030405060708090a0b0c0d0e0f101112131415161718191a1b1c1d1e1f20 1 1 3 1 - 6 lost d=h0102;bu",
 ]
 
-LEVEL_TEXT = ("Lean 4 theorems about the client model under response disturbances: a request whose response does not "
+LEVEL_TEXT = ("Library client against the library's own server: a download that returns normally under ANY alteration "
+              "of the responses has stored exactly the payload in the local node; the server state stays well-formed "
+              "whatever frames reach it; from any such state and any stale queue the next download/upload pair is "
+              "exact.  Lean 4 theorems about the client model under response disturbances: a request whose response does not "
               "arrive is followed by the abort frame 0x05040000 and a communication error (every step, any peer); an "
               "abort frame raises the aborted error with its code; a download that returns normally has delivered "
               "exactly the payload under ANY alteration of the responses; an upload that returns normally under any "
